@@ -351,7 +351,7 @@ Qed.
 
 (* C08, whole runs: any network of integrators with edges, any inputs in an accepted form, any number of steps *)
 Theorem run_inputs_partial s vectorize depth T dt W inputs x0 :
-  inputs_guard vectorize depth T dt inputs = true -> rows_fit T dt dt = true -> frame_ok T dt (length x0) = true ->
+  inputs_guard vectorize depth T dt inputs = true -> rows_fit T dt dt = true -> frame_ok T dt = true ->
   run_inputs s vectorize depth T dt W inputs x0 = Rows (spec_run_inputs s T dt W inputs x0).
 Proof.
   intros Hg Hfit Hok. unfold inputs_guard in Hg. apply andb_prop in Hg as [Hd Hall].
@@ -369,7 +369,7 @@ Proof.
     apply andb_prop in Hall as [Hall _]. apply andb_prop in Hall as [Hall _]. apply andb_prop in Hall as [_ Hall]. lia. }
   rewrite E3.
   pose proof (run_partial unit (net_rhs W inputs) s T dt None 0%Qc (seq 0 (length x0)) x0 tt) as HR. cbn zeta in HR.
-  rewrite seq_length in HR. rewrite HR by assumption. f_equal.
+  rewrite HR by assumption. f_equal.
   unfold spec_run_inputs, spec_run. apply map_ext_in. intros k Hk. apply filter_In in Hk as [Hk _]. apply in_seq in Hk.
   apply rows_fit_true in Hfit as [Hss Hc].
   assert (Hlt : k * rnd (dt / dt) < rnd (T / dt)) by (apply cdiv_mul_lt; [exact Hss|rewrite Hc; lia]).
